@@ -981,6 +981,21 @@ pub fn rewrap_nonansi_early(text: &str, after_header: &str) -> String {
     text.to_string()
 }
 
+/// `pragma with the name alone on its line, then a line that is a complete expression list by itself, whose last
+/// expression nevertheless goes on in the line after it
+pub fn pragma_continuation(rng: &mut Rng) -> String {
+    let name = *rng.pick(&["protect", "foo"]);
+    let (line, cont) = *rng.pick(&[
+        ("key_keyname", "= \"F\""),
+        ("a, b", ", begin"),
+        ("version = 1, k", "= (x, y = 2)"),
+        ("encoding", "= (enctype = \"raw\"), data_block"),
+        ("a", ", b"),
+    ]);
+    let ind = *rng.pick(&["", "  ", "\t"]);
+    format!("`pragma {}\n{}{}\n{}{}\n", name, ind, line, ind, cont)
+}
+
 /// `pragma with its expression list broken over lines in every way
 pub fn pragma_lines(rng: &mut Rng) -> String {
     if rng.chance(1, 4) {
